@@ -77,6 +77,29 @@ def _classes():
     return _CLS
 
 
+def _reward_fns():
+    """User-supplied reward functions (the documented extension point `reward_fn`): the reward is then no witness of
+    the goal, the solved test is still the cube's."""
+    import jax.numpy as jnp
+
+    from jumanji.environments.logic.rubiks_cube.reward import RewardFn
+
+    class StepPenalty(RewardFn):          # -1 per move, 0 on the move that solves the cube
+        def __call__(self, state):
+            faces = state.cube.reshape(6, -1)
+            return jnp.where(jnp.all(faces == faces[:, :1]), 0.0, -1.0)
+
+    class CentreFraction(RewardFn):       # fraction of stickers that show the colour of their face's first sticker (> 0 always)
+        def __call__(self, state):
+            faces = state.cube.reshape(6, -1)
+            return jnp.mean((faces == faces[:, :1]).astype(float))
+
+    return {"penalty": StepPenalty, "dense": CentreFraction}
+
+
+REWARD_PROPS = ["C03", "C11", "C12", "C17"]
+
+
 def _scr(id, n, t, k, episodes, max_steps, policies, via="ctor", **kw):
     return dict(id=id, ctor=dict(cube_size=n, time_limit=t, num_scrambles=k), mode="scramble", label="colours",
                 via=via, episodes=episodes, max_steps=max_steps, policies=policies, **kw)
@@ -112,6 +135,9 @@ class Adapter(EnvAdapter):
                      make_kwargs=dict(time_limit=33), probe_every=0, props=["C01", "C03", "C11", "C12"]),
                 _scr("v0_make_t5", 3, 5, 100, 1, 8, ["random"], via="make:RubiksCube-v0",
                      make_kwargs=dict(time_limit=5), probe_every=0, props=["C01", "C03", "C11", "C12"]),
+                # user-supplied reward functions: a step penalty (0 when solved) and a positive dense reward
+                _scr("n3_t20_s3_penalty", 3, 20, 3, 4, 8, ["solve", "random"], reward="penalty", probe_every=2, props=REWARD_PROPS),
+                _scr("n2_t6_s2_dense", 2, 6, 2, 4, 8, ["random", "solve"], reward="dense", probe_every=2, props=REWARD_PROPS),
                 _scr("n2_t3_s1", 2, 3, 1, 6, 6, mix),
                 _scr("n2_t1_s0", 2, 1, 0, 4, 4, ["random"]),
                 # solved exactly at the time limit (both end reasons on the same step) / one step before it
@@ -146,6 +172,9 @@ class Adapter(EnvAdapter):
                             make_kwargs=dict(time_limit=t), probe_every=0, props=["C01", "C03", "C11", "C12"]))
             out.append(_scr(f"v0_make_t{t}", 3, t, 100, 1, t + 3, ["random"], via="make:RubiksCube-v0",
                             make_kwargs=dict(time_limit=t), probe_every=0, props=["C01", "C03", "C11", "C12"]))
+        for n in (2, 3, 4):
+            out.append(_scr(f"n{n}_t20_s3_penalty", n, 20, 3, 12, 8, ["solve", "random"], reward="penalty", props=REWARD_PROPS))
+            out.append(_scr(f"n{n}_t6_s2_dense", n, 6, 2, 12, 8, ["random", "solve"], reward="dense", props=REWARD_PROPS))
         for n in (2, 3, 4, 5, 6, 7):
             pe = 1 if n < 4 else 3
             out += [
@@ -187,8 +216,11 @@ class Adapter(EnvAdapter):
             elif via.startswith("make:"):
                 env = jumanji.make(via[5:], **cfg.get("make_kwargs", {}))     # keyword arguments override the registered ones
             else:
+                kw = {}
+                if cfg.get("reward", "sparse") != "sparse":
+                    kw["reward_fn"] = _reward_fns()[cfg["reward"]]()
                 env = RubiksCube(generator=ScramblingGenerator(cube_size=n, num_scrambles_on_reset=c["num_scrambles"]),
-                                 time_limit=c["time_limit"])
+                                 time_limit=c["time_limit"], **kw)
             env.generator = cls["ScrambleLog"](env.generator)
         # the implementation's action encodings, tabulated once: triple -> flat -> triple -> flat
         nd = n // 2
@@ -213,6 +245,7 @@ class Adapter(EnvAdapter):
         rec["mode"] = cfg["mode"]
         rec["label"] = cfg["label"]
         rec["via"] = cfg.get("via", "ctor")
+        rec["reward"] = cfg.get("reward", "sparse")
         rec["unflatten_tab"] = self._unflat_tab       # implementation: unflatten_action(k), k = 0..NM-1
         rec["reflatten_tab"] = self._reflat_tab       # implementation: flatten_action(unflatten_action(k))
         return rec
